@@ -12,6 +12,7 @@ from typing import Dict, List, Optional, Set, Tuple
 
 from ..model import Repo, ClassInfo, FuncInfo, AnalysisError, norm, parent, ancestors, enclosing_stmt, const_str
 from ..report import Ctx, RuleResult
+from ..exprs import has_pat, find_pat
 
 SCOPE_MODULES = ('lark.parsers.earley', 'lark.parsers.xearley', 'lark.parsers.earley_forest', 'lark.parsers.earley_common',
                  'lark.parsers.grammar_analysis', 'lark.parse_tree_builder')
@@ -20,7 +21,7 @@ SCOPE_FUNCS = ('lark.load_grammar:Grammar.compile', 'lark.utils:classify', 'lark
 
 # iterations over hash-ordered collections that are harmless, confirmed by reading (one row, one reason)
 EXCEPTIONS = {
-    ('lark.parsers.grammar_analysis:calculate_sets', 'symbols'):
+    ('lark.parsers.grammar_analysis:calculate_sets', '<loop filling FIRST/FOLLOW>'):
         'fills FIRST/FOLLOW dictionaries that are only ever indexed (never iterated) by the parsers',
     ('lark.parsers.earley_forest:ForestToPyDotVisitor.visit_packed_node_out', '[node.left, node.right]'): 'list display',
     ('lark.parsers.grammar_analysis:GrammarAnalyzer.__init__', 'Counter(rules).items()'):
@@ -101,6 +102,12 @@ def run_order(ctx: Ctx) -> RuleResult:
                     continue
                 site = '%s %s' % (f.loc(owner), f.qual)
                 key = (f.qual, norm(base))
+                returned = {x.id for r_ in f.body_nodes() if isinstance(r_, ast.Return) and r_.value is not None
+                            for x in ast.walk(r_.value) if isinstance(x, ast.Name)}
+                if isinstance(owner, ast.For) and f.qual == 'lark.parsers.grammar_analysis:calculate_sets' and \
+                        all(isinstance(st_, ast.Assign) and isinstance(st_.targets[0], ast.Subscript)
+                            and norm(st_.targets[0].value) in returned for st_ in owner.body):
+                    key = (f.qual, '<loop filling FIRST/FOLLOW>')
                 if key in EXCEPTIONS:
                     used_exc.add(key)
                     res.ob(site, 'iteration over hash-ordered %s: tabled (%s)' % (norm(base), EXCEPTIONS[key]), True)
@@ -263,7 +270,7 @@ def run_prio(ctx: Ctx) -> RuleResult:
     ok = len(agg) == 1 and len(srt) == 1
     if ok:
         best_first_is_max = ('-self.priority' in key and not rev) or ('self.priority' in key and rev)
-        ok = (agg[0].func.id == 'max') == best_first_is_max and 'child.priority' in norm(agg[0])
+        ok = (agg[0].func.id == 'max') == best_first_is_max and has_pat(list(ast.walk(agg[0])), '($c.priority for $c in $n.children)')
     res.ob('%s %s' % (so.loc(), so.qual), 'a symbol node\'s priority is the %s over its children and the first child in sort order is that one '
            '(key %s, reverse=%s)' % (agg[0].func.id if agg else '?', key, rev), ok)
     if not ok:
@@ -325,8 +332,8 @@ def run_prio(ctx: Ctx) -> RuleResult:
         res.finding(xs, xs.node, 'the dynamic scanner overrides the terminal priority of token nodes', construct='prio:dynamic-term')
     # the prioritizer is enabled when any priority is set
     pi = repo.func('lark.parsers.earley:Parser.__init__')
-    body = ' '.join(norm(s) for s in pi.node.body)
-    ok = 'rule.options.priority is not None' in body and 'term.priority' in body and "self.lexer_conf.lexer_type != 'basic'" in body
+    ok = has_pat(pi.body_nodes(), '$r.options.priority is not None') and has_pat(pi.body_nodes(), 'if $t.priority:\n    self.forest_sum_visitor = ForestSumVisitor\n    break') \
+        and has_pat(pi.body_nodes(), "self.lexer_conf.lexer_type != 'basic'")
     res.ob('%s %s' % (pi.loc(), pi.qual), 'the priority pass is enabled by any rule priority, or (dynamic lexers) any terminal priority', ok)
     if not ok:
         res.finding(pi, pi.node, 'the conditions enabling the priority pass changed', construct='prio:enable')
